@@ -116,11 +116,9 @@ FindRigidTransformationBySVD<PointType>::estimate_(
   Eigen::Matrix<Scalar, -1, -1> u = svd.matrixU();
   Eigen::Matrix<Scalar, -1, -1> v = svd.matrixV();
 
-  //      if (u.determinant () * v.determinant () < 0)
-  //      {
-  //        for (int x = 0; x < d; ++x)
-  //          v (x, d) *= -1;
-  //      }
+  if (u.determinant() * v.determinant() < 0) {
+    v.col(CARTESIAN_DIM - 1) *= -1;
+  }
 
   // Compute translation
   TransformationMatrixType H = TransformationMatrixType::Identity();
@@ -160,11 +158,9 @@ FindRigidTransformationBySVD<PointType>::estimate_(
   Eigen::Matrix<Scalar, -1, -1> u = svd.matrixU();
   Eigen::Matrix<Scalar, -1, -1> v = svd.matrixV();
 
-  //      if (u.determinant () * v.determinant () < 0)
-  //      {
-  //        for (int x = 0; x < d; ++x)
-  //          v (x, d) *= -1;
-  //      }
+  if (u.determinant() * v.determinant() < 0) {
+    v.col(CARTESIAN_DIM - 1) *= -1;
+  }
 
   // Compute translation
   TransformationMatrixType H = TransformationMatrixType::Identity();
